@@ -153,7 +153,7 @@ def run(seed=0, tier='quick', hints=None, broken=False):
                 targets = ['mask', 'masks', 'dicom'] + (['keypoints'] if name not in ('BBoxSafeRandomCrop', 'RandomSizedBBoxSafeCrop', 'GridDropout') else []) \
                     + (['bboxes'] if name not in ('CoarseDropout', 'GridDropout') else [])
                 targets = [t for t in targets if rng.random() < 0.8]
-                channels = 2 if 'apply_to_channel_idx' in kw else rng.choice([None, None, 3])
+                channels = 2 if 'apply_to_channel_idx' in kw else rng.choice([None, None, 3, 1])
                 if name == 'NPSNoise':
                     channels = None
                 case = {'name': name, 'kw': jsonable(kw), 'shape': [12, 10, 8], 'seed': rng.randint(0, 10 ** 6),
